@@ -145,7 +145,7 @@ Lemma uidcopy_loop_ext uids : forall s sel dest next s',
   uidcopy_loop s sel dest uids next = Some s' -> Ext s s' /\ Keeps s s'.
 Proof.
   induction uids as [|u r IH]; simpl; intros s sel dest next s' H.
-  - injection H as <-. split; [apply Ext_refl | apply Keeps_refl].
+  - injection H as <-. split; [apply Ext_same | apply Keeps_same]; reflexivity.
   - destruct (find_link s sel u) as [l|] eqn:F; [|eauto].
     destruct (insert_link s (lk_msg l) dest next (add_recent (lk_flags l))) as [s1|] eqn:I; [|discriminate].
     destruct (IH _ _ _ _ _ H) as [E K]. split.
@@ -160,20 +160,21 @@ Proof.
   { cbn [fst]. split; [apply Ext_refl | apply Keeps_refl]. }
   destruct (find_name s d) as [m|].
   2:{ cbn [fst]. split; [apply Ext_refl | apply Keeps_refl]. }
-  destruct (uidcopy_loop s sel (mb_id m) (u :: r) (max_uid s (mb_id m) + 1)) as [s'|] eqn:L.
+  destruct (uidcopy_loop s sel (mb_id m) (u :: r) (mb_next m)) as [s'|] eqn:L.
   - cbn [fst]. eapply uidcopy_loop_ext; eauto.
   - cbn [fst]. split; [apply Ext_refl | apply Keeps_refl].
 Qed.
 
 (** ---- UID STORE (with the Junk / NonJunk move) ---------------------------------------- *)
 
-Lemma move_message_ext s l0 src dn fl :
-  In l0 (links s) -> Ext s (fst (move_message s (lk_msg l0) src dn fl)).
+Lemma move_message_ext s l0 src srcuid dn fl :
+  In l0 (links s) -> Ext s (fst (move_message s (lk_msg l0) src srcuid dn fl)).
 Proof.
-  intros I. unfold move_message. destruct (find_name s dn) as [d|]; simpl; [|apply Ext_refl].
-  destruct (mb_id d =? src); simpl; [apply Ext_refl|].
-  destruct (insert_link s (lk_msg l0) (mb_id d) (max_uid s (mb_id d) + 1) fl) as [s1|] eqn:E; simpl.
-  - eapply Ext_trans; [eapply Ext_insert; eauto | apply Ext_delete].
+  intros I. unfold move_message. destruct (find_name s dn) as [d|]; [|apply Ext_refl].
+  destruct (mb_id d =? src); [apply Ext_refl|].
+  destruct (insert_link s (lk_msg l0) (mb_id d) (mb_next d) fl) as [s1|] eqn:E; cbn [fst].
+  - eapply Ext_trans; [eapply Ext_insert; eauto |].
+    eapply Ext_trans; [|apply Ext_delete]. apply Ext_same; reflexivity.
   - apply Ext_refl.
 Qed.
 
@@ -182,12 +183,12 @@ Proof.
   unfold uidstore_one. destruct (find_link s sel u) as [l|] eqn:F; [|apply Ext_refl].
   pose proof (find_link_in _ _ _ _ F) as I.
   destruct (negb (fmem JUNK (lk_flags l)) && fmem JUNK (calc_flags (lk_flags l) new mode)).
-  - pose proof (move_message_ext s l sel SPAM (fremove NONJUNK (calc_flags (lk_flags l) new mode)) I) as M.
-    destruct (move_message s (lk_msg l) sel SPAM _) as [s1 ok]. simpl in M.
+  - pose proof (move_message_ext s l sel u SPAM (fremove NONJUNK (calc_flags (lk_flags l) new mode)) I) as M.
+    destruct (move_message s (lk_msg l) sel u SPAM _) as [s1 ok]. simpl in M.
     destruct ok; [exact M | apply Ext_set_flags].
   - destruct (negb (fmem NONJUNK (lk_flags l)) && fmem NONJUNK (calc_flags (lk_flags l) new mode)).
-    + pose proof (move_message_ext s l sel INBOX (fremove JUNK (calc_flags (lk_flags l) new mode)) I) as M.
-      destruct (move_message s (lk_msg l) sel INBOX _) as [s1 ok]. simpl in M.
+    + pose proof (move_message_ext s l sel u INBOX (fremove JUNK (calc_flags (lk_flags l) new mode)) I) as M.
+      destruct (move_message s (lk_msg l) sel u INBOX _) as [s1 ok]. simpl in M.
       destruct ok; [exact M | apply Ext_set_flags].
     + apply Ext_set_flags.
 Qed.
